@@ -29,7 +29,8 @@ LEVEL_TEXT = ("The three ladders of every parameter block are re-translated from
               "block instances, every gamma_pl_num / number of LOS populations and every real vector: round "
               "trip, exact index bookkeeping and block concatenation, one name per slot, element-wise meaning of "
               "slot j (value, bounds, log10 exposure), fixed parameters excluded from the vector and injected "
-              "into the dictionaries.  The generated ladders are executed against the real ParamManager on "
+              "into the dictionaries; kwargs2args (hence the bound vectors) is independent of the order in which the caller "
+              "wrote the keys of the dictionaries (kwargs2args_key_order).  The generated ladders are executed against the real ParamManager on "
               "random configurations (correspondence) and the property statement itself is evaluated on the "
               "real code.")
 LEVEL_NOTE = ("trusted: Lean kernel+Mathlib, the translator (syntax -> data, validated by correspondence), the "
